@@ -49,6 +49,9 @@ func Do(p Params) *Result {
 
 	extErrs, parseFinishFn := handleExtensionsParseDidStart(&p)
 	if len(extErrs) != 0 {
+		// The request stops here, but the extensions whose hook did return
+		// have started the phase: tell them how it ended.
+		extErrs = append(extErrs, parseFinishFn(extErrs[0])...)
 		return &Result{
 			Errors: extErrs,
 		}
@@ -78,6 +81,7 @@ func Do(p Params) *Result {
 	// notify extensions about the start of the validation
 	extErrs, validationFinishFn := handleExtensionsValidationDidStart(&p)
 	if len(extErrs) != 0 {
+		extErrs = append(extErrs, validationFinishFn(extErrs)...)
 		return &Result{
 			Errors: extErrs,
 		}
